@@ -260,7 +260,7 @@ class Case:
     env = {}                 # kwargs for symbolic_env (np_proxy_modules, extra, noconj)
     real_env = {}            # module-global shadowing also needed in real mode
     timeout_s = 120
-    first_timeout_s = 10        # (legacy knob, unused by the default strategy)
+    first_timeout_s = 10        # short full query used for big formulas before the instance search
     presearch_attempts = 3      # quick instance search before the full query (0 = off)
     wall_limit_s = 900          # hard wall-clock limit of the whole case (worker is killed)
     tol = 1e-7
@@ -492,10 +492,25 @@ def execute_case(prop, case, tier, seed):
                 # (only `unsat` of the FULL query is ever reported as "holds"); (3) longer instance
                 # search if the full query is unknown.
                 values, dt0 = (None, 0.0)
-                if case.presearch_attempts:
+                small = _size_below(f, 60000)
+                if case.presearch_attempts and small:
                     values, dt0 = guided_search(f, side, rnd, min(20, case.timeout_s), attempts=case.presearch_attempts)
                     res["solver_s"] += dt0
-                r, m, dt = ("sat", None, dt0) if values is not None else check_formula(f, side, case.timeout_s)
+                if values is not None:
+                    r, m, dt = "sat", None, dt0
+                elif small:
+                    r, m, dt = check_formula(f, side, case.timeout_s)
+                else:
+                    # big formula: substituting into it is itself expensive; short full query first
+                    r, m, dt = check_formula(f, side, min(case.first_timeout_s, case.timeout_s))
+                    if r == "unknown":
+                        res["solver_s"] += dt
+                        values, dt0 = guided_search(f, side, rnd, min(60, case.timeout_s), attempts=4)
+                        if values is not None:
+                            r, m, dt = "sat", None, dt0
+                        else:
+                            res["solver_s"] += dt0
+                            r, m, dt = check_formula(f, side, case.timeout_s)
                 if values is not None:
                     q["guided"] = "sat (pre-search)"
                 else:
@@ -591,6 +606,22 @@ def execute_case(prop, case, tier, seed):
         res["errors"].append("%s: %s\n%s" % (type(e).__name__, e, traceback.format_exc()[-1500:]))
     res["wall_s"] = round(time.time() - t0, 2)
     return res
+
+
+def _size_below(f, cap):
+    """True if the DAG of f has fewer than `cap` nodes"""
+    seen = set()
+    stack = [f]
+    while stack:
+        x = stack.pop()
+        i = x.get_id()
+        if i in seen:
+            continue
+        seen.add(i)
+        if len(seen) >= cap:
+            return False
+        stack.extend(x.children())
+    return True
 
 
 def _exception_replay(case, seed):
